@@ -35,6 +35,7 @@ CASES = os.path.join(COQ, "cases")
 CACHE = os.path.join(VERIF, ".cache")
 IMPL_PY = "/venv/bin/python"
 GUARD = "OUTRANK_VERIF"
+COQ_MEM_KB = int(os.environ.get("VERIF_COQ_MEM_KB", str(10 * 1024 * 1024)))   # address-space cap per coqc evaluating cases
 
 STD_REAL_AXIOMS = {
     "ClassicalDedekindReals.sig_forall_dec",
@@ -332,7 +333,7 @@ def coq_eval(pid, header, exprs, shard=400, timeout=900, jobs=12, keep=False):
             f.write(header + "\nSet Printing Width 10000000. Set Printing Depth 10000000.\n")
             for e in shards[k]:
                 f.write("Eval vm_compute in (%s).\n" % e)
-        rc, out = _run(["bash", "-c", "ulimit -s unlimited 2>/dev/null; exec coqc -Q '%s' Outrank '%s'" % (COQ, path)],
+        rc, out = _run(["bash", "-c", "ulimit -s unlimited 2>/dev/null; ulimit -v %d 2>/dev/null; exec coqc -Q '%s' Outrank '%s'" % (COQ_MEM_KB, COQ, path)],
                        timeout, cwd=CASES)
         if not keep:
             _cleanup(path)
